@@ -98,6 +98,13 @@ fn shapes(b: &[u8], rich: bool, out: &mut Vec<Spec>) {
             }
         }
     }
+    // chunk() hands out prefixes of varying length on successive calls (whole chunk / one byte)
+    if n >= 2 {
+        for mode in 1..=2u8 {
+            out.push(Spec::Burst(vec![b.to_vec()], mode));
+            out.push(Spec::Dyn(Box::new(Spec::Burst(vec![b[..n / 2].to_vec(), b[n / 2..].to_vec()], mode))));
+        }
+    }
     // one byte per chunk
     if n >= 2 {
         out.push(Spec::Frag(b.iter().map(|&x| vec![x]).collect()));
@@ -336,17 +343,20 @@ pub fn run(tier: &str, parity_odd: bool, shard: usize, nshards: usize, rep: &mut
             let pats = patterns(m.size, false);
             let kmax = if pass == 0 { 0 } else { 2 };
             for k in 0..=kmax {
-                for tail in 0..=1usize {
+                for tail in [0usize, 1, 9, 17] {
+                    // (long tails: the chunk that holds the value extends 8 / 16 bytes beyond it - word-load fast paths)
                     // full pattern set on a small spread of shapes; every shape on a reduced pattern set
                     let mut all0: Vec<u8> = (0..k).map(|i| 0xE0 + i as u8).collect();
                     all0.extend_from_slice(&pats[pats.len() / 2]);
-                    all0.extend((0..tail).map(|i| 0xF0 + i as u8));
+                    all0.extend((0..tail).map(|i| 0xC0u8.wrapping_add(i as u8)));
                     let mut specs = vec![];
                     shapes(&all0, rich, &mut specs);
                     for (si, spec0) in specs.iter().enumerate() {
                         let full = rich || si % 5 == 0;
                         for (pi, pat) in pats.iter().enumerate() {
-                            let take = if pats.len() > 25 {
+                            let take = if tail > 1 {
+                                (pi == pats.len() / 2 || pi == 16.min(pats.len() - 1) || pi == 14.min(pats.len() - 1)) && (rich || si % 3 == 0 || matches!(spec0, Spec::Slice(_)))
+                            } else if pats.len() > 25 {
                                 si % 7 == 0 || pi % 16 == 0 || pi == 0x7f || pi == 0x80 || pi == 0xff
                             } else if pats.len() == 25 {
                                 full || pi == 16 || pi == 14 // (80,01) and (7f,ff): sign bit and order pinned
@@ -361,7 +371,7 @@ pub fn run(tier: &str, parity_odd: bool, shard: usize, nshards: usize, rep: &mut
                             }
                             let mut all: Vec<u8> = (0..k).map(|i| 0xE0 + i as u8).collect();
                             all.extend_from_slice(pat);
-                            all.extend((0..tail).map(|i| 0xF0 + i as u8));
+                            all.extend((0..tail).map(|i| 0xC0u8.wrapping_add(i as u8)));
                             // rebuild the same shape over these bytes
                             let mut sp = vec![];
                             shapes(&all, rich, &mut sp);
